@@ -56,3 +56,117 @@ fn c17_twin_must_fail() {
     let back = Id::from(SocketAddrV4::from(id));
     assert!(back == id, "TWIN round trip holds for all 64-bit ids (false)");
 }
+
+// ---- timer bookkeeping of the UDP runtime (`on_command`) ------------------------------------------
+//
+// `on_command` and `Interrupt` are private to spawn.rs; the scratch copy makes them pub(crate)
+// (overlay transform, visibility only).  `Instant::now()` is stubbed by a symbolic clock and the
+// `HashMap` of pending interrupts is the Vec-backed model.  Timer ranges are degenerate
+// (start == end) so that the runtime's random jitter (`rand::thread_rng`) is not reached; no
+// `Send` command is executed, so the socket is never used.
+use super::coll::HashMap;
+use crate::actor::spawn::{on_command, Interrupt};
+use crate::actor::{Actor, Command, Out};
+use std::net::UdpSocket;
+use std::time::{Duration, Instant};
+
+pub struct TA17;
+impl Actor for TA17 {
+    type Msg = u8;
+    type State = u8;
+    type Timer = u8;
+    type Random = u8;
+    fn on_start(&self, _id: Id, _o: &mut Out<Self>) -> u8 {
+        0
+    }
+}
+
+use std::panic::catch_unwind as real_catch_unwind;
+/// `rand::thread_rng()` (statically reachable from the SetTimer arm, never executed here) pulls in a
+/// thread-local destructor whose `catch_unwind` intrinsic Kani 0.68 cannot compile; under Kani's
+/// panic=abort semantics `catch_unwind(f)` is exactly `Ok(f())`.
+fn catch_unwind_stub<F: FnOnce() -> R + std::panic::UnwindSafe, R>(f: F) -> std::thread::Result<R> {
+    Ok(f())
+}
+
+#[repr(C)]
+struct RawInstant {
+    secs: i64,
+    nanos: u32,
+}
+static mut NOW_SECS: i64 = 0;
+/// Stub for `Instant::now()`: a symbolic, non-decreasing clock.
+fn symbolic_now() -> Instant {
+    let step: i64 = kani::any();
+    kani::assume(step >= 0 && step < 1_000_000);
+    unsafe {
+        NOW_SECS += step;
+        std::mem::transmute::<RawInstant, Instant>(RawInstant { secs: 1_000_000 + NOW_SECS, nanos: 0 })
+    }
+}
+fn ser(_m: &u8) -> Result<Vec<u8>, ()> {
+    Ok(Vec::new())
+}
+fn fake_socket() -> std::mem::ManuallyDrop<UdpSocket> {
+    use std::os::fd::FromRawFd;
+    // never used (no Send command) and never dropped (no close syscall)
+    std::mem::ManuallyDrop::new(unsafe { UdpSocket::from_raw_fd(3) })
+}
+fn deadline(m: &HashMap<Interrupt<u8, u8>, Instant>, t: u8) -> Option<Instant> {
+    m.get(&Interrupt::Timeout(t)).copied()
+}
+
+/// A timer is armed with the lower bound of the range given at its LATEST arming, and a cancelled
+/// timer is no longer due: after SetTimer(t, d1) [SetTimer(t, d2)] the deadline of t is the time of
+/// the latest arming plus its duration (never the older, earlier one); after CancelTimer(t) the
+/// timer is not due for at least 400 years; other timers are untouched.
+#[kani::proof]
+#[kani::unwind(5)]
+#[kani::stub(std::time::Instant::now, symbolic_now)]
+#[kani::stub(real_catch_unwind, catch_unwind_stub)]
+fn c17_timer_arming() {
+    assert!(std::mem::size_of::<RawInstant>() == std::mem::size_of::<Instant>());
+    let addr = SocketAddrV4::new(Ipv4Addr::new(127, 0, 0, 1), 3000);
+    let sock = fake_socket();
+    let mut m: HashMap<Interrupt<u8, u8>, Instant> = HashMap::new();
+    let (t, other): (u8, u8) = (kani::any(), kani::any());
+    kani::assume(t != other);
+    let d0 = Duration::from_secs(kani::any::<u16>() as u64);
+    let d1 = Duration::from_secs(kani::any::<u16>() as u64);
+    let d2 = Duration::from_secs(kani::any::<u16>() as u64);
+    on_command::<TA17, ()>(addr, Command::SetTimer(other, d0..d0), ser, &sock, &mut m);
+    let other_deadline = deadline(&m, other).expect("C17 a set timer is pending");
+    let before1 = symbolic_now();
+    on_command::<TA17, ()>(addr, Command::SetTimer(t, d1..d1), ser, &sock, &mut m);
+    let dl1 = deadline(&m, t).expect("C17 a set timer is pending");
+    assert!(dl1 >= before1 + d1, "C17 a timer fires no earlier than the lower bound of its range after arming");
+    let rearm: bool = kani::any();
+    if rearm {
+        let before2 = symbolic_now();
+        on_command::<TA17, ()>(addr, Command::SetTimer(t, d2..d2), ser, &sock, &mut m);
+        let dl2 = deadline(&m, t).expect("C17 a re-armed timer is pending");
+        assert!(dl2 >= before2 + d2, "C17 a re-armed timer fires no earlier than the lower bound given at its LATEST arming");
+        assert!(m.len() == 2, "C17 re-arming does not create a second entry");
+    }
+    assert!(deadline(&m, other) == Some(other_deadline), "C17 arming one timer leaves the others untouched");
+    let cancel: bool = kani::any();
+    if cancel {
+        let now = symbolic_now();
+        on_command::<TA17, ()>(addr, Command::CancelTimer(t), ser, &sock, &mut m);
+        let due_soon = match deadline(&m, t) {
+            None => false,
+            Some(dl) => dl < now + Duration::from_secs(3600 * 24 * 365 * 400),
+        };
+        assert!(!due_soon, "C17 a cancelled timer does not fire");
+        assert!(deadline(&m, other) == Some(other_deadline), "C17 cancelling one timer leaves the others untouched");
+        // cancelling a timer that was never set arms nothing
+        let never: u8 = kani::any();
+        kani::assume(never != t && never != other);
+        on_command::<TA17, ()>(addr, Command::CancelTimer(never), ser, &sock, &mut m);
+        assert!(deadline(&m, never).is_none(), "C17 cancelling an unset timer arms nothing");
+    }
+    kani::cover!(rearm && d2 > d1, "re-armed with a later deadline");
+    kani::cover!(rearm && d2 < d1, "re-armed with an earlier deadline");
+    kani::cover!(cancel, "cancelled");
+    std::mem::forget(m);
+}
